@@ -117,7 +117,7 @@ let trace_main ?(emit = 0) ?(skip = 0) file =
            predicted state is compared as it is.  Only the abstracted edits (SetType, SetEnum, enum
            edits, shifts, compact) take their resulting geometry from the observation, as OSetGeom. *)
         let abstracted = match op with
-          | ("AP" | "IN" | "RM" | "BO" | "SZ") :: _ -> false
+          | ("AP" | "IN" | "RM" | "BO" | "SZ" | "RO") :: _ -> false   (* RO: read-only calls, no model operation *)
           | _ -> true in
         if abstracted then List.iter (fun g ->
             match List.find_opt (fun x -> x.s_id = g.s_id) (m_sigs !st) with
